@@ -198,7 +198,13 @@ type c04SigReq struct {
 	Want   int    `json:"want"`            // generator intent in strict mode
 	Plain  []byte `json:"plain,omitempty"` // what the handler should read (evidence only)
 	ReqURI string `json:"x_request_uri,omitempty"`
+	// Framing: how the body travels. "" = Content-Length (no body -> none / 0); "chunked" =
+	// unknown length (ContentLength -1, Transfer-Encoding: chunked), also for an empty body.
+	// The signed content covers the body bytes, whatever the framing.
+	Framing string `json:"framing,omitempty"`
 }
+
+type c04OpaqueReader struct{ io.Reader } // hides the length from net/http
 
 // c04SplitURI splits the simple URIs the generator produces ("/p?q" or "http://host/p?q").
 func c04SplitURI(u string) (path, query string, ok bool) {
@@ -796,7 +802,14 @@ func c04SigHandlerGate(ks *c04KeySet, tol time.Duration, strict, callback bool) 
 		if len(q.Body) > 0 {
 			body = bytes.NewReader(q.Body)
 		}
+		if q.Framing == "chunked" {
+			body = c04OpaqueReader{bytes.NewReader(q.Body)}
+		}
 		req := httptest.NewRequest(q.Method, u, body)
+		if q.Framing == "chunked" {
+			req.ContentLength = -1
+			req.TransferEncoding = []string{"chunked"}
+		}
 		if q.HasCS {
 			req.Header.Set("X-Content-Security", q.CS)
 		}
@@ -870,6 +883,12 @@ func c04SigEngineGate(ks *c04KeySet, tol time.Duration, strict, callback bool, j
 			u += "?" + q.Query
 		}
 		req, err := c04NewRequest(q.Method, u, q.Body)
+		if err == nil && q.Framing == "chunked" {
+			req, err = http.NewRequest(q.Method, u, c04OpaqueReader{bytes.NewReader(q.Body)})
+			if err == nil {
+				req.ContentLength = -1 // the client sends Transfer-Encoding: chunked
+			}
+		}
 		if err != nil {
 			return 0, err
 		}
@@ -923,8 +942,8 @@ func c04SigEngineGate(ks *c04KeySet, tol time.Duration, strict, callback bool, j
 }
 
 func c04SigDesc(idx int, g *c04SigGate, q c04SigReq) string {
-	return fmt.Sprintf("case=%d;layer=%s;strict=%v;callback=%v;tolerance=%s;class=%s;method=%s;path=%s;query=%q;x-request-uri=%q;body(hex)=%s;x-content-security=%q",
-		idx, g.layer, g.strict, g.callback, g.tol, q.Class, q.Method, q.Path, q.Query, q.ReqURI, hex.EncodeToString(q.Body), q.CS)
+	return fmt.Sprintf("case=%d;layer=%s;strict=%v;callback=%v;tolerance=%s;class=%s;method=%s;path=%s;query=%q;x-request-uri=%q;framing=%q;body(hex)=%s;x-content-security=%q",
+		idx, g.layer, g.strict, g.callback, g.tol, q.Class, q.Method, q.Path, q.Query, q.ReqURI, q.Framing, hex.EncodeToString(q.Body), q.CS)
 }
 
 func c04ModeName(strict bool) string {
@@ -947,6 +966,9 @@ func c04SigCase(m *vk.M, idx int, g *c04SigGate, ks *c04KeySet, r *rand.Rand, cl
 		q.Want = c04Admit
 	} else {
 		q = c04GenSig(r, class, ks, g.prefix, now, tol)
+	}
+	if r.Intn(3) == 0 {
+		q.Framing = "chunked" // every class, with and without a body
 	}
 	want, why := c04VerifySig(q, ks, now, tol)
 	if want == c04Unasserted {
@@ -1016,6 +1038,17 @@ func c04SigCase(m *vk.M, idx int, g *c04SigGate, ks *c04KeySet, r *rand.Rand, cl
 	m.Count("sig."+g.layer+"."+c04ModeName(g.strict)+".requests", 1)
 	m.Count("sig.class."+q.Class, 1)
 	m.Count("sig.method."+q.Method, 1)
+	if q.Framing == "chunked" {
+		if len(q.Body) == 0 {
+			m.Count("sig.framing.chunked_empty_body", 1)
+		} else {
+			m.Count("sig.framing.chunked_with_body", 1)
+		}
+	} else if len(q.Body) == 0 {
+		m.Count("sig.framing.no_body", 1)
+	} else {
+		m.Count("sig.framing.content_length", 1)
+	}
 	switch {
 	case ran > 1:
 		m.Violate(sig+"handler-ran-twice:"+q.Class, c04SigDesc(idx, g, q), "inner handler ran %d times", ran)
